@@ -207,6 +207,22 @@ static void e2e_size(int shape, uint64_t len, unsigned k) {
     if (TA.max_request > BIG && (u128)TA.max_request < want) vh_violation("under-allocation-requested", "cbor_serialize_alloc asked for %llu bytes for a tree needing more", (unsigned long long)TA.max_request);
   }
   if (ab) ta_free(ab);
+  /* fixed-buffer serialization of the same tree: no buffer of ordinary size holds it, so every call answers 0 and
+   * writes nothing beyond the buffer (a room computation that wraps would start copying the pretended length) */
+  if (want > (u128)BIG) {
+    static const size_t ns[] = {0, 1, 8, 9, 10, 17, 64, 4096};
+    uint8_t* out = malloc(4096 + 64);
+    for (size_t i = 0; i < sizeof ns / sizeof ns[0]; i++) {
+      memset(out, 0x5e, 4096 + 64);
+      size_t r = cbor_serialize(root, out, ns[i]);
+      if (r != 0) vh_violation("proceeded-on-truncated-size", "cbor_serialize of a tree needing %s bytes into a %zu-byte buffer returned %zu", want > (u128)SIZE_MAX ? ">2^64" : "far more", ns[i], r);
+      for (size_t q = ns[i]; q < 4096 + 64; q++) if (out[q] != 0x5e) { vh_violation("write-beyond-buffer", "cbor_serialize with buffer_size=%zu modified byte %zu", ns[i], q); break; }
+      size_t r2 = (shape & 1) && form == 0 && k == 1 ? cbor_serialize_string(s, out, ns[i]) : form == 0 && k == 1 ? cbor_serialize_bytestring(s, out, ns[i]) : 0;
+      if (r2 != 0) vh_violation("proceeded-on-truncated-size", "the typed string serializer returned %zu for a string of pretended length %llu in a %zu-byte buffer", r2, (unsigned long long)len, ns[i]);
+    }
+    free(out);
+    VH_COUNT("size.fixed_buffer_serializations_of_oversize_trees", sizeof ns / sizeof ns[0]);
+  }
   /* restore and release */
   if (shape & 1) s->metadata.string_metadata.length = 4; else cbor_bytestring_set_handle(s, h, 4);
   cbor_decref(&root);
